@@ -23,7 +23,8 @@ OPS = ["ucat_outlets(cellsize,method,uparea)", "ucat_area(unit)", "subgrid.ucat_
        "subgrid_rivslp(both,length,method)", "subgrid.fixed_length_slope(kernel)"]
 RULE = ("random loop-free networks on rasters <= 56 cells (quick) / <= 340 (thorough): D8 networks from random "
         "DEMs and arbitrary forests laid on a raster; outlet sets = derived (cell size 1..4, eam_plus / dmm, own or "
-        "user upstream area with ties), random distinct cells with missing entries, outlets nested on one flow path, "
+        "user upstream area with ties), random cells with missing entries, cells outside the network and pixels listed "
+        "twice, outlets nested on one flow path, "
         "all cells; directions up/down, river masks from an upstream-area threshold or random, data with nodata, "
         "zero weights. non-trivial = >= 2 valid cells, >= 1 confluence, path length >= 3 and >= 1 non-missing outlet; "
         "distinct = SHA-1 of (op, network, outlets, options, fields)")
@@ -88,7 +89,7 @@ def gen_outlets(rng, ds, n, valid):
         outs += rng.sample(others, min(len(others), rng.randint(0, 3)))
         rng.shuffle(outs)
         tag = "nested"
-    elif u < 0.9:
+    elif u < 0.85:
         outs = [i for i in valid if rng.random() < 0.5] or [valid[0]]
         rng.shuffle(outs)
         tag = "dense"
@@ -99,10 +100,16 @@ def gen_outlets(rng, ds, n, valid):
         for _ in range(rng.randint(1, 3)):
             outs.insert(rng.randint(0, len(outs)), n)
         tag += "+missing"
-    if tag != "all" and rng.random() < 0.08:
+    if tag != "all" and rng.random() < 0.12:  # an outlet pixel listed twice (the last entry labels)
+        real = [o for o in outs if o != n]
+        if real:
+            outs.insert(rng.randint(0, len(outs)), rng.choice(real))
+            tag += "+dup"
+    if tag != "all" and rng.random() < 0.2:
         nod = [i for i in range(n) if ds[i] == n]
-        if nod:
-            outs.append(rng.choice(nod))  # an outlet on a cell outside the network
+        if nod:  # outlets on cells outside the network (nodata cells)
+            for c in rng.sample(nod, min(len(nod), rng.randint(1, 2))):
+                outs.insert(rng.randint(0, len(outs)), c)
             tag += "+offnet"
     return outs, tag
 
@@ -316,9 +323,9 @@ def case_area(ctx, W, outs, nt, kernel, area_fixed=None):
     impl_map = ints(m)
     impl_are = [Fraction(float(x)) for x in np.asarray(are).ravel().tolist()]
     # the property's sum clause evaluated directly on the implementation's output
-    tot_are = sum(impl_are[k] for k, o in enumerate(outs) if o != n)
+    # (entries that are the last one of their pixel; an earlier duplicate reports the pixel's own area)
+    tot_are = sum(impl_are[k] for k, o in enumerate(outs) if o != n and o not in outs[k + 1:])
     tot_cells = sum(area[i] for i in range(n) if impl_map[i] != 0)
-    distinct = len({o for o in outs if o != n}) == len([o for o in outs if o != n])
 
     def judge(ans):
         a = ans[0]
@@ -336,7 +343,7 @@ def case_area(ctx, W, outs, nt, kernel, area_fixed=None):
         if impl_are != [Fraction(x) for x in a["spec.are"]]:
             fs.append({"kind": "spec", "what": "catchment area differs from the sum of cell areas over the cells carrying the label",
                        "impl": [str(x) for x in impl_are], "spec": a["spec.are"]})
-        if distinct and tot_are != tot_cells:
+        if tot_are != tot_cells:
             fs.append({"kind": "spec", "what": f"areas add up to {tot_are}, labelled cells to {tot_cells}"})
         if impl_map != a["model.map"] or impl_are != [Fraction(x) for x in a["model.are"]]:
             fs.append({"kind": "model", "what": "ucat_area: implementation != Lean model", "impl_map": impl_map,
@@ -431,7 +438,8 @@ def direction_nxt(ctx, W):
 def outs_arg(ctx, W, outs):
     """(argument passed to the wrapper, list the model gets)"""
     n = W["n"]
-    if outs == list(range(n)) and ctx.rng.random() < 0.5:
+    if outs == list(range(n)) and ctx.rng.random() < 0.6:
+        ctx.count("idxs_out=None" + ("(raster with nodata)" if len(W["valid"]) < n else ""))
         return None, outs
     return outs_np(outs, n, W["flw"], ctx.rng), outs
 
@@ -566,19 +574,26 @@ def case_rivslp_both(ctx, W, outs, nt):
     o_np, outs = outs_arg(ctx, W, outs)
     mask = gen_mask(ctx, W)
     wrapper = W["fam"] == "dem" and abs(res[0]) < 1000
-    if wrapper:
-        length = rng.choice([2, 5, 8, 10, 15, 24, 1000])
-        kw = {} if length == 1000 and rng.random() < 0.5 else {"length": length}
-        out = flw.subgrid_rivslp(o_np, elev_np, direction="both", method=method, mask=mask, **kw)
-        dist_np = flw.distnc.ravel()
-        opname = "subgrid_rivslp(both)"
-    else:
-        length = rng.choice([1, 2, 3, 4, 6, 9])
-        dist_np = flw.stream_distance(unit="cell").ravel().astype(rng.choice([np.float32, np.float64]))
-        arr = np.arange(n, dtype=np.intp) if o_np is None else o_np.ravel()
-        out = subgrid.fixed_length_slope(arr, flw.idxs_ds, flw.idxs_us_main, elev_np.ravel(), dist_np, length=length,
-                                         mask=None if mask is None else mask.ravel(), lstsq=method == "lstsq", mv=flw._mv)
-        opname = "subgrid.fixed_length_slope"
+    try:
+        if wrapper:
+            length = rng.choice([2, 5, 8, 10, 15, 24, 1000])
+            kw = {} if length == 1000 and rng.random() < 0.5 else {"length": length}
+            out = flw.subgrid_rivslp(o_np, elev_np, direction="both", method=method, mask=mask, **kw)
+            dist_np = flw.distnc.ravel()
+            opname = "subgrid_rivslp(both)"
+        else:
+            length = rng.choice([1, 2, 3, 4, 6, 9])
+            dist_np = flw.stream_distance(unit="cell").ravel().astype(rng.choice([np.float32, np.float64]))
+            arr = np.arange(n, dtype=np.intp) if o_np is None else o_np.ravel()
+            out = subgrid.fixed_length_slope(arr, flw.idxs_ds, flw.idxs_us_main, elev_np.ravel(), dist_np, length=length,
+                                             mask=None if mask is None else mask.ravel(), lstsq=method == "lstsq", mv=flw._mv)
+            opname = "subgrid.fixed_length_slope"
+    except Exception as e:  # outlet pixels outside the network and masks are in the documented domain
+        ctx.evaluations += 1
+        ctx.fail({"op": "subgrid_rivslp(both)", **W["env"], "outlets": outs, "method": method,
+                  "mask": None if mask is None else ints(mask)}, "spec",
+                 f"slope around the outlet pixel raised {type(e).__name__}: {e}")
+        return
     De, (elev,) = scaled(elev_np)
     Dx, (dist, (half,)) = scaled(dist_np, [Fraction(length, 2)])
     impl = [float(x) for x in np.asarray(out).ravel().tolist()]
@@ -623,7 +638,7 @@ def case_rivslp_both(ctx, W, outs, nt):
 def case_rivslp(ctx, W, outs, nt):
     from pyflwdir import subgrid
     rng, flw, n, res = ctx.rng, W["flw"], W["n"], W["res"]
-    if rng.random() < 0.3 and all(o == n or W["ds"][o] != n for o in outs):
+    if rng.random() < 0.3:
         return case_rivslp_both(ctx, W, outs, nt)
     d, nxt = direction_nxt(ctx, W)
     mask = gen_mask(ctx, W)
